@@ -9,7 +9,7 @@ use read_fonts::{
     FontData, FontRead,
 };
 use serde_json::{json, Value};
-use std::cell::Cell;
+use std::cell::{Cell, RefCell};
 use vf_core::{Ctx, Digest, PanicInfo};
 use write_fonts::{
     from_obj::FromTableRef,
@@ -168,7 +168,7 @@ fn mm(sig: &str, i: usize, g: &MGlyph, detail: Value) -> Mismatch {
 }
 
 /// (i) read-fonts view of glyph `i` vs the model.
-fn check_read_fonts(i: usize, g: &MGlyph, got: Option<rglyf::Glyph>, owned_in: &w::Glyph) -> Result<(), Mismatch> {
+fn check_read_fonts(i: usize, g: &MGlyph, got: Option<rglyf::Glyph>, owned_in: &w::Glyph, soft: &RefCell<Vec<Mismatch>>) -> Result<(), Mismatch> {
     match (g, got) {
         (MGlyph::Empty, None) => Ok(()),
         (MGlyph::Empty, Some(_)) => Err(mm("read-fonts:empty-glyph-has-data", i, g, json!({}))),
@@ -196,16 +196,23 @@ fn check_read_fonts(i: usize, g: &MGlyph, got: Option<rglyf::Glyph>, owned_in: &
                 return Err(mm("read-fonts:simple:instructions", i, g, json!({"got_len": s.instructions().len(), "want_len": instr.len()})));
             }
             let want: Vec<Pt> = contours.iter().flatten().copied().collect();
-            // path 1: the point iterator
-            let got: Vec<Pt> = s.points().map(|p| Pt { x: p.x, y: p.y, on: p.on_curve }).collect();
-            if got != want {
-                let ix = got.iter().zip(&want).position(|(a, b)| a != b).unwrap_or(got.len().min(want.len()));
-                return Err(mm(
-                    "read-fonts:simple:points()",
-                    i,
-                    g,
-                    json!({"first_diff": ix, "got": got.get(ix).map(|p| format!("{:?}", p)), "want": want.get(ix).map(|p| format!("{:?}", p)), "got_len": got.len(), "want_len": want.len()}),
-                ));
+            // path 1: the point iterator (guarded on its own: a panic here must not hide the other paths)
+            match vf_core::guard(|| s.points().map(|p| Pt { x: p.x, y: p.y, on: p.on_curve }).collect::<Vec<Pt>>()) {
+                Err(p) => match lib_sig(&p) {
+                    Some(sig) => soft.borrow_mut().push(mm(&format!("read-fonts:simple:points()-{}", sig), i, g, json!({"panic": p.msg}))),
+                    None => return Err(mm("harness:panic-in-points-closure", i, g, json!({"panic": p.msg, "file": p.file, "line": p.line}))),
+                },
+                Ok(got) => {
+                    if got != want {
+                        let ix = got.iter().zip(&want).position(|(a, b)| a != b).unwrap_or(got.len().min(want.len()));
+                        return Err(mm(
+                            "read-fonts:simple:points()",
+                            i,
+                            g,
+                            json!({"first_diff": ix, "got": got.get(ix).map(|p| format!("{:?}", p)), "want": want.get(ix).map(|p| format!("{:?}", p)), "got_len": got.len(), "want_len": want.len()}),
+                        ));
+                    }
+                }
             }
             // path 2: the bulk reader used by skrifa
             if s.num_points() != want.len() {
@@ -227,10 +234,17 @@ fn check_read_fonts(i: usize, g: &MGlyph, got: Option<rglyf::Glyph>, owned_in: &
                 }
             }
             // path 3: conversion back to the owned type
-            let back = w::SimpleGlyph::from_table_ref(&s);
-            if let w::Glyph::Simple(orig) = owned_in {
-                if &back != orig {
-                    return Err(mm("read-fonts:simple:to-owned-differs", i, g, json!({})));
+            match vf_core::guard(|| w::SimpleGlyph::from_table_ref(&s)) {
+                Err(p) => match lib_sig(&p) {
+                    Some(sig) => soft.borrow_mut().push(mm(&format!("read-fonts:simple:to-owned-{}", sig), i, g, json!({"panic": p.msg}))),
+                    None => return Err(mm("harness:panic-in-to-owned-closure", i, g, json!({"panic": p.msg}))),
+                },
+                Ok(back) => {
+                    if let w::Glyph::Simple(orig) = owned_in {
+                        if &back != orig {
+                            return Err(mm("read-fonts:simple:to-owned-differs", i, g, json!({})));
+                        }
+                    }
                 }
             }
             Ok(())
@@ -312,6 +326,7 @@ pub fn check_set(ctx: &mut Ctx, kind: &str, glyphs: &[MGlyph], via: AddVia) -> O
     let phase: Cell<&'static str> = Cell::new("convert");
     let at: Cell<usize> = Cell::new(0);
     let kind_s = kind.to_string();
+    let soft: RefCell<Vec<Mismatch>> = RefCell::new(vec![]);
     let res = ctx.run_case(
         &|| format!("{}:{:016x}", kind_s, set_digest),
         None,
@@ -489,7 +504,7 @@ pub fn check_set(ctx: &mut Ctx, kind: &str, glyphs: &[MGlyph], via: AddVia) -> O
                 // (i) read-fonts
                 phase.set("read-fonts");
                 let got = rl.get_glyf(GlyphId::new(i as u32), &rg).map_err(|e| mm("read-fonts:get_glyf-error", i, g, json!({"error": e.to_string()})))?;
-                check_read_fonts(i, &want_model, got, &owned[i])?;
+                check_read_fonts(i, &want_model, got, &owned[i], &soft)?;
             }
             Ok((Built { glyf: glyf_b, loca: loca_b, long }, st))
         },
@@ -522,6 +537,9 @@ pub fn check_set(ctx: &mut Ctx, kind: &str, glyphs: &[MGlyph], via: AddVia) -> O
             None
         }
         Ok(Ok((built, st))) => {
+            for (sig, detail) in soft.borrow().iter() {
+                ctx.violation(sig, json!({"detail": detail, "case": case(None)}), None);
+            }
             ctx.count("sets_built", 1);
             ctx.count(if built.long { "sets_long_loca" } else { "sets_short_loca" }, 1);
             ctx.count("glyphs_checked", st.glyphs);
